@@ -72,6 +72,13 @@ def make_cases(rng, tier):
     n = 900 if tier == "quick" else 20000
     cases, extra_bad = [], []
     progs = mp.forced_backtrack_cases(rng, n // 5)
+    # a backtracking call that completes as a no-op inside the engine a transfer left leaves two transfers back to back
+    # (there and back again): transferring THAT relation to its own engine must still return the relation itself
+    for src, mid in ((("it", 0), ("it", 1)), (("it", 1), ("sql", 0)), (("sql", 0), ("it", 0))):
+        k1, k2 = enc.K(1), enc.K(2)
+        z = ("leaf", 1, src, [k1, k2], [{k1: 1, k2: 2}, {k1: 3, k2: 4}], (0, None))
+        back = ("xfer", src, ("un", ("calc", enc.K(5), ("add", ("ref", k1), ("lit", 1))), mp.DEFAULT, ("xfer", mid, z)))
+        progs.append(("un", ("proj", [k1, k2]), (mid, True, False, False), back))
     for _ in range(n):
         progs.append(mp.gen_mprog(rng, rng.choice([1, 2, 3, 4, 5, 7, 9]))[0])
     # engine-restricted column functions requested with every kind of preferred-engine option
